@@ -92,7 +92,7 @@ func btExec(t *btree.BTree, o bop) string {
 		return "BoItem " + optItem(t.Get(btree.Int(o.X)))
 	case "getidx":
 		it, i := t.GetWithIndex(btree.Int(o.X))
-		return fmt.Sprintf("BoIdx %s %d", optItem(it), i)
+		return fmt.Sprintf("BoIdx %s %s", optItem(it), coqfmt.Z(int64(i)))
 	case "getat":
 		return "BoItem " + optItem(t.GetAt(o.X))
 	case "asc":
@@ -114,7 +114,7 @@ func btExec(t *btree.BTree, o bop) string {
 		}
 		return "BoList " + zlist(l)
 	case "len":
-		return fmt.Sprintf("BoNum %d", t.Len())
+		return "BoNum " + coqfmt.Z(int64(t.Len()))
 	case "min":
 		return "BoItem " + optItem(t.Min())
 	case "max":
